@@ -69,6 +69,15 @@ def cases(tier):
         for ti, tgt in enumerate(TARGETS):
             for route in ('cls', 'cfg', 'potable') + (('proc',) if tgt != 'excel_eam_fs' else ()):
                 out.append(dict(m=m, route=route, target=tgt))
+    for els in (['Al'], ['Cu', 'Al'], ['Fe', 'Al', 'Cu']):
+        for extra in (['Ni'], ['Ni', 'Ag']):
+            allp = ['%s->%s' % (a, b) for a in els for b in els]
+            m = dict(fs=True, embed=list(els), dens=allp[::2] + allp[1::2], pairs=[], species='builtin', nr=4, cutoff=2.5, nrho=3, cutoff_rho=50.0, extra_dict_species=extra)
+            for tgt in ('setfl_fs', 'DL_POLY_EAM_fs'):
+                for route in ('cls', 'proc'):
+                    out.append(dict(m=m, route=route, target=tgt))
+    for m in EK.big_grid_models(True)[:2]:
+        out.append(dict(m=m, route='cfg', target='setfl_fs'))
     # under-specified: species that appear only as neighbour (to-only) or only as centre (from-only) of a density entry
     for els in EK.ordered_subsets(EK.UNIVERSE, (2, 3)):
         for ne in range(1, len(els)):
